@@ -113,6 +113,12 @@ var c09Values = []c09Shape{
 	{Name: "HTTPS2", Value: "NOERROR;HTTPS;1 . alpn=h2", RCode: "NOERROR", RR: "HTTPS", Val: "1 . alpn=h2"},
 	{Name: "SVCB", Value: "NOERROR;SVCB;1 svc.example.net", RCode: "NOERROR", RR: "SVCB", Val: "1 svc.example.net"},
 	{Name: "PTR", Value: "NOERROR;PTR;ptr.example.net.", RCode: "NOERROR", RR: "PTR", Val: "ptr.example.net."},
+	// Response codes, also extended ones (>= 16).
+	{Name: "SERVFAIL", Value: "SERVFAIL", RCode: "SERVFAIL"},
+	{Name: "BADKEY", Value: "BADKEY;;", RCode: "BADKEY"},
+	{Name: "BADTIME", Value: "BADTIME;;", RCode: "BADTIME"},
+	{Name: "NOTAUTH", Value: "NOTAUTH;;", RCode: "NOTAUTH"},
+	{Name: "BADCOOKIE", Value: "badcookie;;", RCode: "BADCOOKIE"},
 	// Structured values that differ in one sub-field only.
 	{Name: "HTTPSx", Value: "NOERROR;HTTPS;1 . alpn=h3 port=8443", RCode: "NOERROR", RR: "HTTPS", Val: "1 . alpn=h3 port=8443"},
 	{Name: "HTTPS0", Value: "NOERROR;HTTPS;1 .", RCode: "NOERROR", RR: "HTTPS", Val: "1 ."},
@@ -459,7 +465,7 @@ func init() {
 				pool := c09Full
 				if c.Rng.Intn(3) > 0 {
 					pool = nil
-					fam := [][]string{{"HTTPS", "HTTPSx", "HTTPS0", "HTTPS2"}, {"SVCB", "SVCB0", "SVCB0p"}, {"MX", "MX2", "MX3"}, {"SRV", "SRV2"}, {"TXT", "TXT2", "TXT3"}, {"A1", "A2", "A1full"}, {"AAAA", "AAAA2"}, {"NS", "SOA", "NOERRORkw"}}[c.Rng.Intn(8)]
+					fam := [][]string{{"HTTPS", "HTTPSx", "HTTPS0", "HTTPS2"}, {"SVCB", "SVCB0", "SVCB0p"}, {"MX", "MX2", "MX3"}, {"SRV", "SRV2"}, {"TXT", "TXT2", "TXT3"}, {"A1", "A2", "A1full"}, {"AAAA", "AAAA2"}, {"NS", "SOA", "NOERRORkw"}, {"REFUSED", "REFUSEDfull", "NXDOMAIN", "SERVFAIL", "BADKEY", "BADTIME", "NOTAUTH", "BADCOOKIE"}}[c.Rng.Intn(9)]
 					for j := 0; j < 3+c.Rng.Intn(3); j++ {
 						v := util.Pick(c.Rng, c09Values).Name
 						if c.Rng.Intn(2) == 0 {
